@@ -4,6 +4,7 @@ import SeqVerif.Model.ActiveMerge
 import SeqVerif.Model.ActiveReach
 import SeqVerif.Model.RangeGo
 import SeqVerif.Model.EvalTreeWith
+import SeqVerif.Model.InverserArray
 import SeqVerif.Extracted.C02
 /-!
 # C02 - search returns exactly the matching documents, ordered, limited and counted
@@ -273,6 +274,23 @@ example :
     Leaf.valMatchWith num (.range [110] (some [49]) true (some [50]) true) [49, 46, 53] = true ∧
       Leaf.valMatch (.range [110] (some [49]) true (some [50]) true) [49, 46, 53] = false := by decide
 
+/-! ## the inverser's pooled table -/
+
+/-- **The pooled `inversion` table is the mapping's position function because `getSlice` clears it**: for *any*
+previous content of the pool buffer, `Inverse` over the table `newInverser` builds equals `ActiveIndex.inverse` (the
+position of the LID in the `_all_` snapshot, "absent" for a LID the snapshot lacks - e.g. one a token list already has
+because an index worker published it after the snapshot was taken). -/
+theorem c02_inverse_table_cleared (pool : List Nat) (m : List Nat) (size k : Nat) (hnd : m.Nodup)
+    (hlt : ∀ v ∈ m, v < size) :
+    ActiveIndex.inverseArr (ActiveIndex.newInversion pool true m size) k = ActiveIndex.inverse m size k :=
+  ActiveIndex.inverseArr_cleared pool m size k hnd hlt
+
+/-- without the clear a LID absent from the snapshot gets the stale position a previous search left in the buffer -/
+theorem c02_inverse_table_dirty_witness :
+    ActiveIndex.inverseArr (ActiveIndex.newInversion [9, 9, 9, 9] false [2, 1] 4) 3 = some 9 ∧
+      ActiveIndex.inverse [2, 1] 4 3 = none :=
+  ActiveIndex.inverseArr_dirty_witness
+
 /-! ## what `Spec.search` promises (so that the equalities above say what the property says) -/
 
 /-- the result is strictly ordered in the requested direction (hence free of repetitions) and not longer than
@@ -348,6 +366,13 @@ theorem c02_x_active :
     activeFacts = ["params.From = max(params.From, dp.info.From)", "params.To = min(params.To, dp.info.To)",
       "if minLID <= uint32(val) && uint32(val) <= maxLID", "GetMID: restoredLID := p.inverser.Revert(uint32(lid))",
       "GetRID: restoredLID := p.inverser.Revert(uint32(lid))"] := by decide
+
+/-- `getSlice` takes the table from the bytes pool **and clears it**; `newInverser` sets `inversion[v] = i + 1` over
+`values`; `Inverse` answers "absent" outside the table and for 0 - the shape `newInversion _ true` / `inverseArr` model -/
+theorem c02_x_inverser :
+    inverserFacts = ["getSlice: bytespool.AcquireLen", "getSlice: clear", "newInverser: buf, inversion := getSlice(size)",
+      "newInverser: range values", "newInverser: inversion[v] = i + 1", "Inverse: if int(k) >= len(is.inversion)",
+      "Inverse: return 0, false", "Inverse: return v, v > 0"] := by decide
 
 /-! ## Non-vacuity -/
 
